@@ -8,3 +8,5 @@ def run(ctx):
                 "distinct = distinct (key list, client key, suite, layout); retried hellos are covered by C06's driver")
     ctx.assumptions = ["all keys are valid X25519 keys"]
     echcommon.run_family(ctx, ["MCEchHello_c09q.cfg" if ctx.quick else "MCEchHello_c09t.cfg"], what="C09")
+    # retried hellos under every key list (EchConn.tla with KeySets = {K1, K3K1, K2K1})
+    echcommon.echconn_slice(ctx, lambda c: True, cfgs=("MCEchConn_k.cfg",), label="retrykeys")
